@@ -21,7 +21,7 @@ Inductive case :=
 | CZipkin (l : list zspan) (obs : option (list zobs)).
 
 Definition resolve {B} (rs : list resource) (ss : list scope) (items : list (nat * nat * B)) : list (item B) :=
-  map (fun t => mkItem (nth (fst (fst t)) rs (mkRes [] [])) (nth (snd (fst t)) ss (mkScope [] [] [] [])) (snd t)) items.
+  map (fun t => mkItem (nth (fst (fst t)) rs (mkRes [] [])) (nth (snd (fst t)) ss (mkScope [] [] [] [] false)) (snd t)) items.
 
 (** Resource groups come out of a Go map: payloads are compared up to the order of the resource
     groups (and of the scope groups inside them); the order of the items is significant. *)
